@@ -242,7 +242,7 @@ func simCase(run *vkit.Run, i int) {
 		return
 	}
 	victim := rng.Intn(d.Honest)
-	dis := runDriver(d, true, victim, rng.Intn(3), advPower, 400_000)
+	dis := runDriver(d, true, victim, rng.Intn(4), advPower, 400_000)
 	run.Count("sim_runs_total", 1)
 	run.Eval(1)
 	if bad(dis) {
